@@ -208,6 +208,9 @@ def run(ck):
                        'arcs: chord-length approximation error bounded by pi rx ry (2 pi / n)^2 / 6 x 4']
     mc = open(pm.__file__.rsplit('/', 2)[0] + '/spec/Area_MC.cfg').read()
     ck.tlc('Area', mc, need_actions=['Step'], timeout=3000)
+    # the algebra for ALL integer matrices / points (Apalache, unbounded): composition, associativity, det, evaluation commutes, area scales by det
+    ck.apalache('MC_Affine', 'Inv')
+    ck.apalache('MC_Affine', 'Wrong', expect_error=True)
     d = 'SPECIFICATION Spec\nCONSTANTS MaxV = %d\n Grid <- %s\n Probes <- ProbesA\n Opt <- OptA\nCONSTRAINT AtStart\nINVARIANT Dump\n'
     first = {}
 
